@@ -297,6 +297,13 @@ def mk_SurfaceReaction(ctx):
     return mk_Reaction(ctx, SurfaceReaction, id='r_0007', is_adsorption=False, beta=_num(ctx, 'beta', 0, 2), direction='cleavage')
 
 
+def mk_SurfaceReaction_rate(ctx):
+    """an adsorption with user-supplied rate parameters, any of which may be exactly zero"""
+    from pmutt.omkm.reaction import SurfaceReaction
+    return mk_Reaction(ctx, SurfaceReaction, id='r_0008', is_adsorption=True, beta=_num(ctx, 'beta', 0, 2), A=_num(ctx, 'A', 0, 1e13),
+                       Ea=_num(ctx, 'Ea', 0, 50), sticking_coeff=_num(ctx, 'stick', 0, 1))
+
+
 def mk_Reactions(ctx):
     from pmutt.reaction import Reactions, Reaction
     a, b, c_, t = _species3(ctx)
@@ -367,6 +374,7 @@ CASES = {
     'Reaction': (mk_Reaction, RXN_G, ['notes']),
     'ChemkinReaction': (mk_ChemkinReaction, RXN_U, ['notes', 'beta', 'is_adsorption', 'sticking_coeff', 'gas_phase']),
     'SurfaceReaction': (mk_SurfaceReaction, RXN_U, ['notes', 'id', 'beta', 'is_adsorption', 'direction', 'use_motz_wise']),
+    'SurfaceReaction+rate-parameters': (mk_SurfaceReaction_rate, RXN_U, ['id', 'is_adsorption']),
     'Reactions': (mk_Reactions, [('__len__', None)], []),
     'PhaseDiagram': (mk_PhaseDiagram, [('get_GoRT_1D', dict(x_name='T', x_values=[300., 900.], P=1.0))], []),
     'IdealGasEOS': (mk_IdealGasEOS, [('get_V', dict(n=2.0)), ('get_P', dict(V=0.5))], []),
@@ -442,6 +450,12 @@ def h_case(ctx, case, times):
         return
     for a in attrs:
         ctx.true('attribute %s preserved' % a, hasattr(copy, a) and _attr_same(getattr(obj, a), getattr(copy, a)))
+    for a in ('A', 'Ea', 'sticking_coeff', 'beta'):
+        if hasattr(obj, a) and getattr(obj, a) is not None and type(getattr(obj, a)).__name__ in ('Sym', 'float', 'int'):
+            ok = hasattr(copy, a) and getattr(copy, a) is not None
+            ctx.true('rate parameter %s still set on the copy' % a, ok)
+            if ok:
+                ctx.eq('rate parameter %s same on the copy' % a, getattr(copy, a), getattr(obj, a))
     if getattr(obj, 'misc_models', None) is not None:
         ctx.true('same attached models, each once', [type(m) for m in obj.misc_models] == [type(m) for m in (copy.misc_models or [])])
     if getattr(obj, 'transition_state', None):
